@@ -41,11 +41,17 @@ def parse_bindings(text: str):
                 key = "*" + name
                 if key in cur:
                     cur[key + "#dup"] = "printed twice"
-                cur[key] = tuple(int(x) for x in inner.split(",") if x.strip()) if inner else ()
+                try:
+                    cur[key] = tuple(int(x) for x in inner.split(",") if x.strip()) if inner else ()
+                except ValueError:
+                    cur[key] = "not-a-shape:" + val[:60]  # whatever is listed there is not an axis binding: compares unequal to any model
             else:
                 if name in cur:
                     cur[name + "#dup"] = "printed twice"
-                cur[name] = int(val)
+                try:
+                    cur[name] = int(val)
+                except ValueError:
+                    cur[name] = "not-a-size:" + val[:60]
         else:
             cur[name] = val
     return axes, structs
